@@ -197,6 +197,11 @@ class FuncView:
                 if kills:
                     written |= set(kills(pred.ast))
                 have = {f for f in have if not norm.mentions(f[0], written)}
+                from .cfg import _gen_facts
+                have |= set(_gen_facts(pred))
+                gens = self._gen_fn()
+                if gens:
+                    have |= set(gens(pred.ast))
             out.append((pred, label, frozenset(have)))
         return out
 
